@@ -72,6 +72,38 @@ double nondet_double(void);
 #endif
 #define JSON_TOKEN_IS(self, p_, n_) (__CPROVER_same_object((p_), (self)->_text.p) && (p_) == (self)->_text.p + GJ_num_start \
                                      && GJ_num_start <= (self)->_pos && (n_) == (self)->_pos - GJ_num_start)
+#ifdef IORA_NATIVE
+/* differential run (tools/diffrun.py): REAL conversions with the semantics of the library calls in the code, so that the numeric
+ * value can be compared with the real C++ too. Ghost checks are proof obligations, not behaviour: absent here. */
+#include <errno.h>
+static inline double json_strtod_sv(iora_sv s, const JsonParser *self)
+{ /* std::strtod(std::string(numStr).c_str(), &endPtr) */
+  (void)self;
+  char *tmp = (char *)malloc(s.n + 1); memcpy(tmp, s.p, s.n); tmp[s.n] = 0;
+  double d = strtod(tmp, NULL); free(tmp);
+  GJ_conv_calls++;
+  return d;
+}
+static inline json_fcres json_from_chars_i64(const char *first, const char *last, int64_t *out, const JsonParser *self)
+{ /* std::from_chars(first, last, int64&), base 10: [-]digits; no digits: invalid_argument, ptr = first, value untouched;
+     out of range: result_out_of_range, ptr = end of the digit run, value untouched */
+  (void)self;
+  json_fcres r; const char *p = first; bool neg = false, ovf = false; uint64_t v = 0;
+  GJ_conv_calls++;
+  if (p < last && *p == '-') { neg = true; p++; }
+  const uint64_t maxmag = neg ? 9223372036854775808ULL : 9223372036854775807ULL;
+  const char *d0 = p;
+  while (p < last && *p >= '0' && *p <= '9') {
+    uint64_t dg = (uint64_t)(*p - '0');
+    if (!ovf) { if (v > (maxmag - dg) / 10) ovf = true; else v = v * 10 + dg; }
+    p++;
+  }
+  if (p == d0) { r.ptr = first; r.ec = EINVAL; return r; }
+  if (ovf) { r.ptr = p; r.ec = ERANGE; return r; }
+  *out = neg ? (int64_t)(0 - v) : (int64_t)v;
+  r.ptr = p; r.ec = 0; return r;
+}
+#else
 static inline double json_strtod_sv(iora_sv s, const JsonParser *self)
 {
   IORA_ASSERT(JSON_TOKEN_IS(self, s.p, s.n), "strtod is applied to exactly the scanned number token [start,_pos)");
@@ -91,5 +123,6 @@ static inline json_fcres json_from_chars_i64(const char *first, const char *last
   if (r.ec == 0) *out = nondet_i64();
   return r;
 }
+#endif
 
 #endif
